@@ -79,6 +79,45 @@ pub fn exec_oracle(kind: &str, fields: &[&str]) -> String {
             }
             "oracle pass".to_string()
         }
+        "S_C18G" => {
+            // a grid is a function of the point: what it delivers does not depend on what it was asked before
+            let m = parse_f(fields[2]);
+            let pts = crate::exec::parse_points(fields[3]);
+            let (Ok(g1), Ok(g2)) = (crate::exec::decode_grid(fields[0], fields[1]), crate::exec::decode_grid(fields[0], fields[1])) else { return "oracle FAIL grid not decodable".to_string() };
+            let forward: Vec<String> = pts.iter().map(|p| crate::exec::dump_at(g1.at(p, m))).collect();
+            let mut backward: Vec<String> = pts.iter().rev().map(|p| crate::exec::dump_at(g2.at(p, m))).collect();
+            backward.reverse();
+            for (k, p) in pts.iter().enumerate() {
+                if forward[k] != backward[k] {
+                    return format!("oracle FAIL the grid delivers {} for ({}, {}) after the points before it in the list, {} after the points behind it", forward[k], p[0], p[1], backward[k]);
+                }
+                let Ok(g3) = crate::exec::decode_grid(fields[0], fields[1]) else { return "oracle FAIL grid not decodable".to_string() };
+                let alone = crate::exec::dump_at(g3.at(p, m));
+                if alone != forward[k] {
+                    return format!("oracle FAIL the grid delivers {} for ({}, {}) after the points before it in the list, {} when asked first", forward[k], p[0], p[1], alone);
+                }
+            }
+            "oracle pass".to_string()
+        }
+        "S_C16N" => {
+            // a Texts parameter: the elements between the commas, trimmed, every one of them
+            let v = unescape(fields[0]);
+            let mut ctx = Minimal::default();
+            ctx.register_op("probe", crate::exec::user_ctor("u:probe").unwrap());
+            let def = format!("probe names={v}");
+            let want: Vec<String> = v.trim().split(',').map(|x| x.trim().to_string()).collect();
+            match ctx.op(&def) {
+                Err(e) => format!("oracle FAIL {:?} refused ({})", def, err_class(&e)),
+                Ok(op) => match ctx.params(op, 0) {
+                    Err(_) => "oracle FAIL no parameters".to_string(),
+                    Ok(p) => match p.texts("names") {
+                        Ok(got) if *got == want => "oracle pass".to_string(),
+                        Ok(got) => format!("oracle FAIL {:?}: the list read is {:?}, written are {:?}", def, got, want),
+                        Err(_) => format!("oracle FAIL {:?}: no list", def),
+                    },
+                },
+            }
+        }
         "S_C16E" => {
             let def = unescape(fields[0]);
             match Minimal::default().op(&def) {
@@ -1213,7 +1252,11 @@ fn oracle_c17e(fields: &[&str]) -> String {
     if looks_proj && has_init && r.is_ok() {
         return format!("oracle FAIL init clause accepted in {:?}", t);
     }
-    let nested = t.matches("proj=pipeline").count() > 1;
+    // a pipeline header anywhere but in front of the first `step` is a nested pipeline (comments aside)
+    let words: Vec<String> = t.lines().map(|l| l.split('#').next().unwrap_or("")).collect::<Vec<_>>().join(" ").split_whitespace().map(|w| w.trim_start_matches('+').to_string()).collect();
+    let first_step = words.iter().position(|w| w == "step");
+    let late_header = first_step.map(|i| words[i..].iter().any(|w| w == "proj=pipeline")).unwrap_or(false);
+    let nested = t.matches("proj=pipeline").count() > 1 || late_header;
     if looks_proj && nested && r.is_ok() {
         return format!("oracle FAIL nested pipeline accepted in {:?}", t);
     }
@@ -2137,7 +2180,15 @@ fn oracle_c08o(fields: &[&str]) -> String {
     // alone or among points inside coverage; with the null grid it passes unchanged and is counted
     // (the shipped grids cover Denmark, one of them Catalonia; the point inside is well inside all the Danish ones)
     if !def.starts_with("deflection") && !def.contains("100800401") {
-        let outside = [Coor4D::geo(41.3874, 2.1686, 0.0, 2020.0), Coor4D::geo(51.5, -0.12, 30.0, 2020.0), Coor4D::geo(-33.0, 151.0, 0.0, 2020.0)];
+        // (a position that is not a number is in no grid)
+        let mut nowhere = Coor4D::geo(56.5, 12.0, 0.0, 2020.0);
+        // (with the null grid the statement is about points: London stands in)
+        if def.contains("@null") {
+            nowhere = Coor4D::geo(51.5, -0.12, 30.0, 2020.0);
+        } else {
+            nowhere[if def.contains("geoid") { 1 } else { 0 }] = f64::NAN;
+        }
+        let outside = [Coor4D::geo(41.3874, 2.1686, 0.0, 2020.0), nowhere, Coor4D::geo(-33.0, 151.0, 0.0, 2020.0)];
         let inside = Coor4D::geo(56.5, 12.0, 100.0, 2020.0);
         let prep = |p: &Coor4D| if def.starts_with("deformation") { Ellipsoid::default().cartesian(p) } else { *p };
         for forward in [true, false] {
@@ -2147,7 +2198,8 @@ fn oracle_c08o(fields: &[&str]) -> String {
             let which = if forward { "forward" } else { "inverse" };
             for k in [1usize, 2, 4] {
                 if def.contains("@null") {
-                    if !same_bits(&d[k], &before[k]) {
+                    let same_or_nan = (0..4).all(|j| d[k][j].to_bits() == before[k][j].to_bits() || (d[k][j].is_nan() && before[k][j].is_nan()));
+                    if !same_or_nan {
                         return format!("oracle FAIL {def} {which}: a point outside all grids must pass unchanged with the null grid, got {:?}", d[k]);
                     }
                 } else if !(d[k][0].is_nan() && d[k][1].is_nan()) {
@@ -2157,6 +2209,22 @@ fn oracle_c08o(fields: &[&str]) -> String {
             let want = if def.contains("@null") { 5 } else { 2 };
             if n != want {
                 return format!("oracle FAIL {def} {which}: {n} successes for two points inside and three outside all grids (null grid: {})", def.contains("@null"));
+            }
+        }
+    }
+    // points on the borders of the grid and within a metre of them belong to the grid (the margin beyond continues
+    // it): every operator delivers something there, also those that look up the neighbourhood of the point
+    if !def.contains("100800401") {
+        for (lat, lon) in [(58.0, 12.0), (57.999995, 12.0), (56.0, 16.0), (56.0, 15.999995), (58.0, 16.0), (54.0, 8.0), (54.0, 12.0), (56.0, 8.0), (58.2, 16.2), (53.8, 7.8)] {
+            let p = Coor4D::geo(lat, lon, 10.0, 2020.0);
+            let mut d = if def.starts_with("deformation") { vec![Ellipsoid::default().cartesian(&p)] } else if def.starts_with("deflection") { vec![Coor4D([lat, lon, 10.0, 2020.0])] } else { vec![p] };
+            // (test_subset.datum is smaller: 55.5-57.5 N, 11-13 E; with it first in the list the other grid answers)
+            let n = ctx.apply(op, Fwd, &mut d).unwrap_or(usize::MAX);
+            if n != 1 || d[0][0].is_nan() || d[0][1].is_nan() || d[0][2].is_nan() {
+                if def.contains("test_subset.datum,@null") {
+                    continue;
+                }
+                return format!("oracle FAIL {def}: the point {lat} N {lon} E on or next to the border of the grid is not served (count {n}, result {:?})", d[0]);
             }
         }
     }
@@ -2734,7 +2802,9 @@ fn oracle_c13(fields: &[&str]) -> String {
         // (a longitude comes back as an equivalent angle: tmerc and others normalise theirs to [-pi, pi])
         let turn = std::f64::consts::TAU;
         let dl = (x[0] - (y[0] + shift)).rem_euclid(turn);
-        let lon_ok = if kind == "lon0" { dl.min(turn - dl) <= 2e-11 || (x[0].is_nan() && y[0].is_nan()) } else { close(x[0], y[0] + shift, 0.0, 2e-11) };
+        // (at a pole the longitude means nothing: whatever comes back there is as good as anything else)
+        let at_pole = (x[1].abs() - std::f64::consts::FRAC_PI_2).abs() <= 1e-9 && (y[1].abs() - std::f64::consts::FRAC_PI_2).abs() <= 1e-9;
+        let lon_ok = at_pole || if kind == "lon0" { dl.min(turn - dl) <= 2e-11 || (x[0].is_nan() && y[0].is_nan()) } else { close(x[0], y[0] + shift, 0.0, 2e-11) };
         if !lon_ok || !close(x[1], y[1], 0.0, 2e-11) {
             return format!("oracle FAIL [{kind}] inverse tuple {i}: {a} gives ({}, {}), {b} gives ({}, {})", x[0], x[1], y[0] + shift, y[1]);
         }
@@ -3241,6 +3311,15 @@ fn oracle_c14(fields: &[&str]) -> String {
                     let rect = e.coefficients_for_rectifying_latitude_computations();
                     let q = |s: f64| if ecc < 1e-9 { 2.0 * s } else { (1.0 - es) * (s / (1.0 - es * s * s) - (0.5 / ecc) * ((1.0 - ecc * s) / (1.0 + ecc * s)).ln()) };
                     let quadrant = meridian_arc_quadrature(a, es, std::f64::consts::FRAC_PI_2);
+                    if sub == "arc" {
+                        // the poles themselves: a quadrant, north positive, south negative
+                        for s in [1.0, -1.0] {
+                            let d = e.meridian_latitude_to_distance(s * std::f64::consts::FRAC_PI_2);
+                            if !((d - s * quadrant).abs() < 1e-6 * (a / 6.4e6).max(1e-9)) {
+                                return format!("oracle FAIL meridian arc to the {} pole on {}: {d}, quadrature {}", if s > 0.0 { "north" } else { "south" }, fields[1], s * quadrant);
+                            }
+                        }
+                    }
                     for p in &pts {
                         let lat = p[1].clamp(-1.5, 1.5);
                         let chi = (lat.tan().asinh() - ecc * (ecc * lat.sin()).atanh()).sinh().atan();
@@ -3417,6 +3496,31 @@ fn oracle_c06(fields: &[&str]) -> String {
                     }
                 }
             }
+            // the isometric latitude (unbounded at the poles): odd, fixing the equator in both directions, increasing,
+            // coming back, and psi = asinh(tan phi) - e atanh(e sin phi)
+            {
+                let fw = |x: f64| e.latitude_geographic_to_isometric(x);
+                let bw = |x: f64| e.latitude_isometric_to_geographic(x);
+                if fw(0.0) != 0.0 || bw(0.0) != 0.0 || bw(-0.0) != 0.0 {
+                    return format!("oracle FAIL isometric latitude: the equator maps to {} and back to {} on {}", fw(0.0), bw(0.0), fields[1]);
+                }
+                for p in parse_data(fields[2]) {
+                    let (x, y) = (p[0].min(p[1]).min(1.5), p[0].max(p[1]).min(1.55));
+                    if !((fw(-x) + fw(x)).abs() < 1e-14) || !((bw(-x) + bw(x)).abs() < 1e-15) {
+                        return format!("oracle FAIL isometric latitude is not odd at {x} on {}", fields[1]);
+                    }
+                    if y - x > 1e-9 && !(fw(x) < fw(y)) {
+                        return format!("oracle FAIL isometric latitude is not increasing between {x} and {y} on {}", fields[1]);
+                    }
+                    if !((bw(fw(x)) - x).abs() < 1e-12) {
+                        return format!("oracle FAIL isometric latitude of {x} on {} comes back as {}", fields[1], bw(fw(x)));
+                    }
+                    let closed = x.tan().asinh() - ecc * (ecc * x.sin()).atanh();
+                    if !((fw(x) - closed).abs() < 1e-11 * closed.abs().max(1.0)) {
+                        return format!("oracle FAIL isometric latitude of {x} on {}: {} but the closed form gives {closed}", fields[1], fw(x));
+                    }
+                }
+            }
             // the latitude operator: both directions against the methods above
             for (name, fw, bw) in &kinds {
                 let def = format!("latitude {name} ellps={}", fields[1]);
@@ -3522,6 +3626,20 @@ fn oracle_c06(fields: &[&str]) -> String {
                 }
                 if !((e.distance(&from, &to) - inv[2]).abs() < 1e-9) {
                     return format!("oracle FAIL {}: distance() and geodesic_inv disagree", fields[1]);
+                }
+                // the operator (degrees: latitude, longitude of both ends in; azimuth, azimuth at the destination, distance,
+                // return azimuth out): the return azimuth of the line is the forward azimuth of the line walked back
+                let def = format!("geodesic ellps={}", fields[1]);
+                let there = Coor4D([from[1].to_degrees(), from[0].to_degrees(), to[1].to_degrees(), to[0].to_degrees()]);
+                let back_again = Coor4D([to[1].to_degrees(), to[0].to_degrees(), from[1].to_degrees(), from[0].to_degrees()]);
+                if let Ok((2, r)) = run_kind("default", &def, false, &[there, back_again]) {
+                    let dr = (r[0][3] - r[1][0]).rem_euclid(360.0);
+                    if !(dr.min(360.0 - dr).to_radians() * p[3].min(a) < 1e-3) {
+                        return format!("oracle FAIL {def}: the return azimuth {} of the line from ({}, {}) to ({}, {}) is not the forward azimuth {} of the line back", r[0][3], there[0], there[1], there[2], there[3], r[1][0]);
+                    }
+                    if !((r[0][2] - r[1][2]).abs() < 1e-5) {
+                        return format!("oracle FAIL {def}: {} m one way, {} m the other", r[0][2], r[1][2]);
+                    }
                 }
             }
         }
